@@ -372,6 +372,31 @@ def rule4_edges(ctx, m, a, s):
                    'totals by kind are sums over all contracted nodes plus the explicit edges (an assignment keeps only the last node)',
                    loc=st.loc, detail=expr_str(ce, st.ops[0]))
     ctx.ob('C18.4', 'dr_calc_edges accumulates from contracted nodes and explicit edges', n_acc >= 3, 'three accumulation sites', loc=ce.loc)
+    # the report prints the whole table as well
+    wr = ctx.need_fn(g, 'dr_write_edge_counts')
+    rl = [l for l in wr.order if l.op == 'load' and l.ty == 'i64' and is_load_of_field(wr, wr.ap(l.ops[0]).root, 'dr_basic_stat.edge_counts')]
+    okw, det = False, ''
+    if len(rl) == 1:
+        li = wr.loop_of_block(rl[0].block.id)
+        bounds = []
+        while li is not None and li >= 0:
+            L = wr.loops[li]
+            for ic in wr.order:
+                if ic.op == 'icmp' and ic.pred in ('slt', 'ult') and ic.block.id == L['header']:
+                    c_ = const_int(ic.ops[1])
+                    if c_ is not None:
+                        bounds.append(('const', c_))
+                    else:
+                        dd = lib.affine_diff(wr, ic.ops[1], {'c': 0, 'w': 64})
+                        nwl = lib.load_terms(wr, dd, 'dr_basic_stat.n_workers')
+                        if len(nwl) == 1 and dd[nwl[0]] == 1 and len(dd) <= 2:
+                            bounds.append(('nw', dd.get('', 0)))
+            li = L['parent']
+        okw = sorted(bounds, key=str) == sorted([('const', ctx.need_enum(en, 'dr_dag_edge_kind_max')), ('nw', 1), ('nw', 1)], key=str)
+        det = str(bounds)
+    ctx.ob('C18.4', 'dr_write_edge_counts prints the whole kinds x (nw+1) x (nw+1) table', okw,
+           'the extra row and column hold the edges of subgraphs that were run by more than one worker and then contracted: leaving them '
+           'out makes the per-kind totals depend on the contraction policy', loc=wr.loc, detail=det)
     # the table the sums start from is cleared in full: kinds x (workers + 1) x (workers + 1), the extra row/column being the
     # "more than one worker" bucket every multi-worker contracted node is charged to
     if len(arr) == 1:
@@ -487,7 +512,33 @@ def rule5_sections(ctx):
         oks = len(sc) == 1 and same_value(fr, sc[0].args[1], fr.params[0]['id'])
         ctx.ob('C18.5', '%s makes the resumed task the worker\'s current task' % ret, oks,
                'the task may resume on another worker: dr_set_cur_task_(wss, t) with the task handed in', loc=fr.loc)
-    ctx.floor('C18.5', 19)
+    # Cilk flavour: the create_task interval waits in wss->parent for the procedure it spawns; whoever takes it empties the slot
+    sp = ctx.need_fn(m, 'dr_start_cilk_proc__')
+    PAR = 'dr_worker_specific_state.parent'
+    pl = sp.loads_of(PAR)
+    stt = call_sites(sp, 'dr_start_task__')
+    clr = [st for st in sp.stores_to(PAR) if isinstance(st.ops[0], dict) and st.ops[0].get('null')]
+    nts = [t_ for l in pl for t_ in lib.null_tests(sp, l.id)]
+    okc = len(stt) == 1 and bool(nts) and any(sp.edge_dominates(br.block.id, nn, stt[0]) for br, nn, nl in nts) and len(clr) >= 1 and \
+        all(not [r for r in sp.reachable_from(lib.first_inst(sp, nn), blocked=clr, include_start=True) if r.op == 'ret'] for br, nn, nl in nts)
+    ctx.ob('C18.5', 'start_cilk_proc consumes the pending parent exactly once', okc,
+           'if (wss->parent) { start_task(wss->parent); wss->parent = 0; }: a slot left filled turns the next plain call on this worker into '
+           'a task under a create_task node that already has its child', loc=sp.loc)
+    setters = set(fn.name for fn in m.functions.values() for st in fn.stores_to(PAR) if not (isinstance(st.ops[0], dict) and st.ops[0].get('null')))
+    for fn in m.functions.values():
+        for c_ in fn.calls():
+            if any(isinstance(a_, str) and fn.ap(a_).fields[-1:] == [PAR] and fn.get(fn.strip(a_)) is not None and
+                   fn.get(fn.strip(a_)).op == 'getelementptr' for a_ in c_.args):
+                setters.add(fn.name)          # the slot's address is handed to the create entry point, which fills it
+    setters = sorted(setters)
+    ctx.ob('C18.5', 'pending parent is set only by the Cilk create entry point', setters == ['dr_enter_create_cilk_proc_task__'],
+           'who-may-write wss->parent', loc=sp.loc, detail=str(setters))
+    ctx.floor('C18.5', 21)
+
+
+def is_load_of_field(f, ref, field):
+    i = f.get(f.strip(ref)) if isinstance(ref, str) else None
+    return i is not None and i.op == 'load' and f.field(i) == field
 
 
 def deps(f, ref):
@@ -587,6 +638,10 @@ MUTANTS = [
      'edits': [('src/profiler/dr_dump.c', "\t      dr_pi_dag_add_edge(e, E_lim, dr_dag_edge_kind_end, w - T, t - T);\n\t      e++;", "\t      dr_pi_dag_add_edge(e, E_lim, dr_dag_edge_kind_end, w - T, t - T);")]},
     {'name': 'edge table cleared for nw instead of nw + 1 workers (sweep M0009)', 'expect': 'C18.4',
      'edits': [('src/profiler/gen_stat.c', "    for (i = 0; i < nw + 1; i++) {\n      for (j = 0; j < nw + 1; j++) {\n\tEDGE_COUNTS(k,i,j) = 0;", "    for (i = 0; i < nw; i++) {\n      for (j = 0; j < nw + 1; j++) {\n\tEDGE_COUNTS(k,i,j) = 0;")]},
+    {'name': 'report prints only the per-worker part of the edge table (seed2 C18/m2)', 'expect': 'C18.4',
+     'edits': [('src/profiler/gen_stat.c', "    for (i = 0; i < nw + 1; i++) {\n      for (j = 0; j < nw + 1; j++) {\n\tlong c = EDGE_COUNTS(k,i,j);", "    for (i = 0; i < nw; i++) {\n      for (j = 0; j < nw; j++) {\n\tlong c = EDGE_COUNTS(k,i,j);")]},
+    {'name': 'Cilk procedure start leaves the pending parent in place (seed2 C18/m1)', 'expect': 'C18.5',
+     'edits': [(INL, "        dr_start_task__(wss->parent, file, line, worker);\n        wss->parent = 0;\n        return 1;", "        dr_start_task__(wss->parent, file, line, worker);\n        return 1;")]},
     {'name': 'edge counts of created tasks dropped', 'expect': 'C18.3',
      'edits': [(INL, "            for (k = 0; k < dr_dag_edge_kind_max; k++) {\n              s->info.logical_edge_counts[k] += c->info.logical_edge_counts[k];\n            }\n", "")]},
 ]
